@@ -43,7 +43,7 @@ Section deep.
     intros Hf a0 Hs srcs. induction srcs as [|s sr IH]; intros i olds st rs st' H; cbn [each_assign] in H.
     - injection H as <- <-. split; [lia|]. intros a Ha. left. exact Ha.
     - destruct olds as [|o orr].
-      + destruct (touches a0 s); [discriminate|]. apply IH in H as [Hm Hr]. split; [exact Hm|exact Hr].
+      + destruct (touches a0 s); [exfalso; eapply store_into_nil_not_done; exact H|]. apply IH in H as [Hm Hr]. split; [exact Hm|exact Hr].
       + destruct (ea a0 s o st) as [[v st1]| | | |] eqn:E1; cbn [tag obind] in H; try discriminate.
         destruct (each_assign ea (i + 1) a0 sr orr st1) as [[vs st2]| | | |] eqn:E2; cbn [obind] in H; try discriminate.
         injection H as <- <-. apply (Hf _ _ _ _ _ _ Hs) in E1 as [M1 F1]. apply IH in E2 as [M2 F2]. split; [lia|].
